@@ -119,6 +119,7 @@ def gen(rng: random.Random, k: int, tier: str) -> dict:
         "create_w": [rng.choice([2, 4, 6]), rng.choice([1, 2]), rng.choice([0, 1]), rng.choice([0, 1]),
                      rng.choice([0, 1, 2]), rng.choice([0, 1]), rng.choice([0, 1, 2])],
         "infer_w": rng.choice([0.0, 0.5, 1.0, 1.5]),
+        "reuse_buffers": rng.random() < 0.35,
         "len": rng.randint(8, 36) * (3 if deep else 1),
     }
     ops = []
@@ -640,6 +641,16 @@ class World:
         if kind == "model":
             nmain = obj.config.nmaindata
             pars, data = self._model_point(obj, a, pt)
+            if self.cfg.get("reuse_buffers"):
+                # the caller keeps one parameter array and one data array per model and updates them in place
+                pb, db = o.get("parbuf"), o.get("databuf")
+                if pb is not None and pb.shape == pars.shape and db.shape == data.shape:
+                    pb[...] = pars
+                    db[...] = data
+                    pars, data = pb, db
+                    self.ctx.probe("input_buffers_reused")
+                else:
+                    o["parbuf"], o["databuf"] = pars, data
             dmain, daux = data[:nmain], data[nmain:]
             T = tl.astensor
             obsv = [
@@ -662,6 +673,13 @@ class World:
             na = r.choice([1, 1, 2, 3, 5])
             al = np.asarray([[r.choice([0.0, 1.0, -1.0, r.uniform(-1, 1), r.uniform(-3, 3)]) for _ in range(na)]
                              for _ in range(ns)], dtype=np.float64)
+            if self.cfg.get("reuse_buffers"):
+                ab = o.get("alphabuf")
+                if ab is not None and ab.shape == al.shape:
+                    ab[...] = al
+                    al = ab
+                else:
+                    o["alphabuf"] = al
             prep["obsv"] = [(f"call_code{a['code']}", lambda m: m(tl.astensor(al)))]
         elif kind == "tv":
             r = random.Random(pt)
